@@ -646,13 +646,8 @@ def judge_served(box: fsbox.Box, acc: fsbox.Access, tag: str,
 
     raw = acc.raw if isinstance(acc.raw, (bytes, str)) else b''
 
-    if dslash and not fsbox.inside(box.permitted, os.fsencode(raw)):
-        # the path handed to the OS is not even textually under the root
-        # and the request carried a path with exactly two leading slashes
-        return 'escape', Violation(
-            'chroot-escape', detail + ' -- request path with two leading '
-            'slashes was mapped to a path outside the root',
-            'chroot:double-slash-path')
+    # (the '//' mapping defect was repaired in /repo: accesses are no longer
+    # attributed to it, so its return would be reported under a direct sig)
 
     if acc.cls == 'stat' and outward:
         # os.path.realpath() follows links in user space: the kernel-level
@@ -731,7 +726,6 @@ class ServedOracle:
                         'chroot-escape', 'link %s -> %s was created pointing '
                         'to %s' % (box.show(p), box.show(os.readlink(p)),
                                    box.show(res.path)),
-                        'chroot:double-slash-path' if dslash else
                         self.tag + ':symlink-created-outward' +
                         unnormalised_linkpath(linkpath)))
 
